@@ -723,7 +723,7 @@ async fn run_script_once(cfg: Value, sc: Value, verdict: Vec<String>, tls: Tls, 
     if via == "stream-last" {
         st = st.set_std_stream(connect());
     }
-    let url = format!("{}://localhost:{}", if mode == "ldaps" { "ldaps" } else { "ldap" }, l.port);
+    let url = format!("{}://{}:{}", if mode == "ldaps" { "ldaps" } else { "ldap" }, if s(&cfg, "host") == "ip" { "127.0.0.1" } else { "localhost" }, l.port);
     let bound = if verdict.iter().any(|v| v == "pending") { pending_ms } else { HANG_MS.max(short_ms + LATE_MS + 500) };
     let o = call_async(st, url.clone(), bound, Some(log.clone())).await;
     let late = short && o.ms > short_ms + LATE_MS;
@@ -772,9 +772,21 @@ async fn run_script_once(cfg: Value, sc: Value, verdict: Vec<String>, tls: Tls, 
 }
 
 fn replay_est(tlc_out: &str, report: &str, ndjson: &str, dir: &Path) {
+    // SETUP_STORE=withCA: the trust store the default connector draws on contains the test CA (set before anything touches
+    // TLS in this process); such a process plays the configurations with store = "withCA", any other the "system" ones
+    let store = std::env::var("SETUP_STORE").unwrap_or_else(|_| "system".into());
+    if store == "withCA" {
+        std::env::set_var("SSL_CERT_FILE", dir.join("certs").join("ca.pem"));
+        std::env::remove_var("SSL_CERT_DIR");
+    }
     let tls = make_tls(dir);
     let mut vecs = vec![];
-    tlcout::for_each_tagged(tlc_out, "VEC", |v| vecs.push(v)).unwrap_or_else(|e| infra(&format!("read {}: {}", tlc_out, e)));
+    tlcout::for_each_tagged(tlc_out, "VEC", |v| {
+        if s(&v["cfg"], "store") == store {
+            vecs.push(v)
+        }
+    })
+    .unwrap_or_else(|e| infra(&format!("read {}: {}", tlc_out, e)));
     let mut rep = Report::new("setup-est");
     let rt = tokio::runtime::Builder::new_multi_thread().worker_threads(8).enable_all().build().unwrap();
     let par: usize = std::env::var("SETUP_PAR").ok().and_then(|x| x.parse().ok()).unwrap_or(16);
@@ -829,6 +841,10 @@ fn replay_est(tlc_out: &str, report: &str, ndjson: &str, dir: &Path) {
         rep.count(&format!("hs_{}", s(sc, "hs")));
         rep.count(&format!("connector_{}_verify_{}", s(cfg, "connector"), cfg["verify"]));
         rep.count(&format!("via_{}", s(cfg, "via")));
+        rep.count(&format!("host_{}_store_{}", s(cfg, "host"), s(cfg, "store")));
+        if s(cfg, "connector") == "default" && s(cfg, "store") == "withCA" && cfg["verify"].as_bool() == Some(true) {
+            rep.count(&format!("default_withCA_verify_{}_{}_{}", s(cfg, "host"), s(sc, "hs"), o.result));
+        }
         rep.count(&format!("timeout_{}", s(cfg, "timeout")));
         if o.result == "ok" {
             rep.count(&format!("ready_verify_{}_cert_{}", cfg["verify"], s(sc, "hs")));
